@@ -119,7 +119,10 @@ func (rw *rewriter) prepass(f *ast.File) {
 				case *types.Chan:
 					rw.rangeKind[n] = 'c'
 				case *types.Map:
-					rw.rangeKind[n] = 'm'
+					// interface-typed keys do not satisfy `comparable` before go1.20: left alone
+					if mt := coreType(t).(*types.Map); !types.IsInterface(mt.Key()) {
+						rw.rangeKind[n] = 'm'
+					}
 				}
 			}
 		}
